@@ -151,3 +151,10 @@ GROUPS += [
           must_fail=["reach_end", "reach_only_last_column_bad"], functions=["ILLcheck_rawlpdata", "ILLraw_check_bounds"], props=["C11", "C17"],
           assumed=["rawlp/check: static ILLcheck_rawlpdata called through goto-cc --export-file-local-symbols; name accessors and ILLdata_error are stubs; the special-ordered-set part of the check is not reached"]),
 ]
+
+GROUPS += [
+    Group("rdr/mps_scan_marker", "mps_scan.c", tus=["read_mps_mpq.c", "mps_mpq.c", "util.c"], model=MODEL, defines=["WHICH=5", "WITH_MARKER"], dfcc=False, export_static=True, unwind=26, kind="bounded", namebuf=16, timeout=1200,
+          bound="every line content of at most 4 arbitrary bytes (quotes included) with or without trailing newline, stale bytes after the terminator; loops completely unwound; reader buffer capacity reduced to 16",
+          functions=["is_marker_line"], props=["C11", "C17"],
+          assumed=["rdr/mps_scan_marker: static is_marker_line called through goto-cc --export-file-local-symbols; strncmp / strchr are CBMC's models"]),
+]
